@@ -70,10 +70,15 @@ class SnarkjsProve(_Backend):
             dict(npub=1, npriv=2, cons=[[(-1, 1, 0), (-2,), (1, 0)], [(), (), (-1, -2)]]),      # A, B, C with 3, 1, 2 terms: the counts are not interchangeable
             dict(npub=1, npriv=1, cons=[[(), (), ()], [(0,), (-1,), (1,)]]),                      # a row without a single term (0*0=0) is still a row
             dict(npub=2, npriv=0, cons=[[(), (), (1, 2, 0)]]),                                    # no private value at all
+            dict(npub=1, npriv=1, cons=[[(), (), (1, -1, 0)], [(), (), (1, -1, 0)]]),             # two rows over the SAME variables (other coefficients): both are written
         ]
         if tier != "quick":
             shapes.append(dict(npub=2, npriv=3, cons=[[(-1, 1), (-2,), (-3, 2, 0)], [(0,), (-3,), (2,)], [(), (-1,), ()]]))
-        return [dict(shape=repr(s)) for s in shapes]
+        out = [dict(shape=repr(s)) for s in shapes]
+        # prove() called a second time (an explicit call, then the exit hook) after one more PUBLIC value was made: every
+        # private wire has moved by one, and both files are written afresh from the current state
+        out.append(dict(shape=repr(dict(npub=1, npriv=2, cons=[[(-1,), (-2,), (-1, 0)], [(0,), (-2,), (-1,)]])), earlier_prove=True))
+        return out
 
     def setup(self, c, cfg):
         m = self.mod(c)
@@ -93,6 +98,11 @@ class SnarkjsProve(_Backend):
                 row.append(m.LinearCombination(d))
             cons.append(row)
         m.constraints[:] = cons
+        if cfg.get("earlier_prove"):
+            pub = list(m.pubvals)
+            m.pubvals[:] = []                 # the state at the earlier call: no public value yet
+            m.prove()
+            m.pubvals[:] = pub
         self._pub, self._priv, self._cons = list(m.pubvals), list(m.privvals), cons
         # the working directory already holds the (longer) files of an earlier, larger computation
         c.w.fs["witness.wtns"] = [b"\x07" * 4096]
